@@ -25,8 +25,22 @@ SegsOfCell(sgs, n) == {k \in 1..Len(sgs) : sgs[k].linear = n - 1}
 RECURSIVE SumSegs(_, _, _)
 SumSegs(P, sgs, k) == IF k > Len(sgs) THEN 0 ELSE (ParamOf(P, Pt(sgs[k].stop)) - ParamOf(P, Pt(sgs[k].start))) + SumSegs(P, sgs, k + 1)
 
-Names == {"Completed", "SegmentsOnPath", "StartBeforeEnd", "InsideCell", "IndexesNameCell", "TilesEachCell", "OrderedByStart",
+Names == {"PreparedAgain", "Completed", "SegmentsOnPath", "StartBeforeEnd", "InsideCell", "IndexesNameCell", "TilesEachCell", "OrderedByStart",
           "DistancesFollowPath", "LengthsAddUp", "PreparedValues", "DomainSharedEdge"}
+
+PreparedOK(ww, e, o, off) ==
+  LET v == ww.vars[VarByName(ww, e.var)]
+      sgs == e.obs.ok.segments
+      np == Len(sgs)
+  IN /\ WellFormedArray(o)
+     /\ Len(o.dims) = Len(v.dims) - Len(v.gridpos) + 1
+     /\ o.shape[Len(o.shape)] = np
+     \* the last dimension indexes the segments; the others are v's other dimensions (depth moved next to last)
+     /\ Range1(SubSeq(o.dims, 1, Len(o.dims) - 1)) = Range1(OtherNames(v))
+     /\ \A q \in 1..Len(o.data) :
+          LET idx == UnravelRM(o.shape, q - 1)
+              ex == [m \in 1..Len(OtherNames(v)) |-> idx[PosOf(o.dims, OtherNames(v)[m])]]
+          IN o.data[q] = Shift(Tag(ww, v, ex, sgs[idx[Len(idx)] + 1].linear), off)
 
 Holds(name, ww, e) ==
   LET P == Points(PathOf(e))  sgs == e.obs.ok.segments  cells == CellsOf(ww) IN
@@ -60,19 +74,13 @@ Holds(name, ww, e) ==
                /\ (ParamOf(P, Pt(sgs[a].start)) < ParamOf(P, Pt(sgs[b].stop)) => sgs[a].d0 < sgs[b].d1)
     [] name = "LengthsAddUp" ->
          (Ok(e) /\ \A k \in 1..Len(sgs) : OnPath(P, sgs[k])) => SumSegs(P, sgs, 1) = Cardinality(ModelSteps(P, cells))
-    [] name = "PreparedValues" ->
-         (Ok(e) /\ e.var # "") =>
-            LET v == ww.vars[VarByName(ww, e.var)]  o == e.obs.ok.prepared
-                np == Len(sgs)
-            IN /\ WellFormedArray(o)
-               /\ Len(o.dims) = Len(v.dims) - Len(v.gridpos) + 1
-               /\ o.shape[Len(o.shape)] = np
-               \* the last dimension indexes the segments; the others are v's other dimensions (depth moved next to last)
-               /\ Range1(SubSeq(o.dims, 1, Len(o.dims) - 1)) = Range1(OtherNames(v))
-               /\ \A q \in 1..Len(o.data) :
-                    LET idx == UnravelRM(o.shape, q - 1)
-                        ex == [m \in 1..Len(OtherNames(v)) |-> idx[PosOf(o.dims, OtherNames(v)[m])]]
-                    IN o.data[q] = Tag(ww, v, ex, sgs[idx[Len(idx)] + 1].linear)
+    [] name = "PreparedValues" -> (Ok(e) /\ e.var # "") => PreparedOK(ww, e, e.obs.ok.prepared, 0)
+    [] name = "PreparedAgain" ->
+         \* the SAME Transect object asked to prepare another array of the same name, dimensions and shape (every value
+         \* e.shift larger), and then the first one once more
+         (Ok(e) /\ e.var # "" /\ "prepared2" \in DOMAIN e.obs.ok) =>
+            /\ PreparedOK(ww, e, e.obs.ok.prepared2, e.shift)
+            /\ PreparedOK(ww, e, e.obs.ok.prepared3, 0)
 
 Failing(ww, e) == {name \in Names : ~Holds(name, ww, e)}
 SeenOf(ww, e) ==
@@ -85,6 +93,7 @@ SeenOf(ww, e) ==
           (IF \E n \in 1..Len(cells) : InCell(P[1], cells[n]) THEN {"starts-inside"} ELSE {"starts-outside"}))
   \cup (IF \E n \in 1..Len(cells) : Cardinality(Runs(P, cells[n])) > 1 THEN {"re-enters-cell"} ELSE {})
   \cup (IF Len(e.path) > 2 THEN {"several-vertices"} ELSE {})
+  \cup (IF Ok(e) /\ "prepared2" \in DOMAIN e.obs.ok /\ Len(e.obs.ok.segments) > 0 THEN {"prepared-again"} ELSE {})
   \cup (IF \E k \in 1..(Len(e.path) - 1) : e.path[k][1] # e.path[k + 1][1] /\ e.path[k][2] # e.path[k + 1][2] THEN {"diagonal"} ELSE {})
 
 Done == t > Len(Log)
